@@ -375,6 +375,11 @@ func (c *FnCtx) dryRun(fr *frame, li *loopInfo, st *State, phis []*ssa.Phi, bloc
 		savedAtoms[k] = v
 	}
 	defer func() { c.atoms = savedAtoms }()
+	savedStrid := map[string]bool{}
+	for k, v := range c.stridSeen {
+		savedStrid[k] = v
+	}
+	defer func() { c.stridSeen = savedStrid }()
 	savedEpochCache := snapshotEpochs(st)
 	savedEpochCtr := c.epochCtr
 	savedUnrolled := c.unrolled
@@ -479,6 +484,80 @@ func restoreEpochs(s []epochSnap) {
 	}
 }
 
+// expandFresh rewrites names created after ctr by their definitions. It fails
+// when a name has no recorded definition (a declared constant) or when the
+// result reads a heap key the loop writes (then the value may change between
+// iterations).
+func (c *FnCtx) expandFresh(term string, ctr int, written map[string]bool) (string, bool) {
+	for depth := 0; depth < 12; depth++ {
+		if !dependsOnFresh(term, ctr) {
+			break
+		}
+		var sb strings.Builder
+		i := 0
+		changed := false
+		for i < len(term) {
+			ch := term[i]
+			if ch == '(' || ch == ')' || ch == ' ' {
+				sb.WriteByte(ch)
+				i++
+				continue
+			}
+			j := i
+			for j < len(term) && term[j] != '(' && term[j] != ')' && term[j] != ' ' {
+				j++
+			}
+			tok := term[i:j]
+			i = j
+			if k := strings.LastIndexByte(tok, '!'); k > 0 {
+				n := 0
+				okNum := k+1 < len(tok)
+				for _, r := range tok[k+1:] {
+					if r < '0' || r > '9' {
+						okNum = false
+						break
+					}
+					n = n*10 + int(r-'0')
+				}
+				if okNum && n > ctr {
+					d, has := c.defs[tok]
+					if !has {
+						return "", false
+					}
+					sb.WriteString(d)
+					changed = true
+					continue
+				}
+			}
+			sb.WriteString(tok)
+		}
+		term = sb.String()
+		if !changed {
+			break
+		}
+	}
+	if dependsOnFresh(term, ctr) {
+		return "", false
+	}
+	for _, tok := range strings.FieldsFunc(term, func(r rune) bool { return r == '(' || r == ')' || r == ' ' }) {
+		if strings.HasPrefix(tok, "H_") || strings.HasPrefix(tok, "G_") || strings.HasPrefix(tok, "M") {
+			key := tok
+			if k := strings.LastIndexByte(key, '!'); k > 0 {
+				key = key[:k]
+			}
+			if k := strings.LastIndex(key, "@e"); k > 0 {
+				key = key[:k]
+			}
+			key = strings.TrimSuffix(key, "$hv")
+			key = strings.TrimSuffix(key, "$loop")
+			if written[key] || written["*"] {
+				return "", false
+			}
+		}
+	}
+	return term, true
+}
+
 // dependsOnFresh reports whether a term mentions a name created after ctr.
 func dependsOnFresh(term string, ctr int) bool {
 	i := 0
@@ -507,6 +586,10 @@ func (c *FnCtx) loopHead(fr *frame, li *loopInfo, st *State, entryPhi map[*ssa.P
 	clauses := c.loopClauses(fr, li)
 	auto := c.autoInvariants(fr, li, entryPhi, phis)
 	where := fmt.Sprintf("loop %d", li.ord)
+	if fr.loopEntrySt == nil {
+		fr.loopEntrySt = map[*loopInfo]*State{}
+	}
+	fr.loopEntrySt[li] = st.clone()
 	// 1. invariants hold on entry
 	for _, p := range phis {
 		fr.regs[p] = entryPhi[p]
@@ -561,6 +644,10 @@ func (c *FnCtx) loopHead(fr *frame, li *loopInfo, st *State, entryPhi map[*ssa.P
 		c.note("loop %d at %s: body calls a function without contract; whole heap havocked at the head", li.ord, c.posString(loopPos(li)))
 	} else {
 		byKey := map[string][]writeRec{}
+		writtenKeys := map[string]bool{}
+		for _, w := range writes {
+			writtenKeys[w.key] = true
+		}
 		var order []string
 		for _, w := range writes {
 			if _, ok := byKey[w.key]; !ok {
@@ -573,8 +660,16 @@ func (c *FnCtx) loopHead(fr *frame, li *loopInfo, st *State, entryPhi map[*ssa.P
 			full := false
 			refs := []string{}
 			for _, w := range ws {
-				if w.full || dependsOnFresh(w.ref, startCtr) {
+				if w.full {
 					full = true
+				} else if dependsOnFresh(w.ref, startCtr) {
+					// the base may be a value re-loaded inside the loop from a
+					// field the loop never writes: express it over pre-loop terms
+					if x, ok := c.expandFresh(w.ref, startCtr, writtenKeys); ok {
+						w.ref = x
+					} else {
+						full = true
+					}
 				}
 				dup := false
 				for _, r := range refs {
